@@ -55,9 +55,9 @@ def envelope_scripts(rng, tier):
     return out
 
 
-def malformed_scripts(rng, tier):
+def malformed_scripts(rng, tier, n=None):
     out = []
-    n = 30 if tier == "quick" else 400
+    n = n or (30 if tier == "quick" else 400)
     for k in range(n):
         ssrc = rng.randrange(2, 1 << 32)
         p = rand_policy(rng, ssrc=ssrc, valid=True)
@@ -223,4 +223,7 @@ def families(tier, seed):
     return [Family("policy-envelope", envelope_scripts(rng, tier), monitor=monitor),
             Family("malformed-packets", malformed_scripts(rng, tier), monitor=monitor),
             Family("forged-by-key-holder", forged_scripts(rng, tier), monitor=monitor),
-            Family("xtn-edge-shapes", xtn_edge_scripts(rng, tier), monitor=monitor)]
+            Family("xtn-edge-shapes", xtn_edge_scripts(rng, tier), monitor=monitor),
+            # the AES-GCM paths (OpenSSL configuration): malformed / truncated / extended / bit-flipped packets, small capacities
+            Family("gcm-malformed-packets", with_aead(malformed_scripts, random.Random(seed * 1000 + 110), tier, n=(12 if tier == "quick" else 200)),
+                   monitor=monitor, config="openssl")]
